@@ -61,7 +61,7 @@ PROPS = {
         "module": "Cdecao.Props.C08",
         "theorems": ["Props.C08_score", "Props.C08_score_valid", "Props.C08_max_ge", "Props.C08_quality_identity", "Props.C08_quality_lack",
                      "Props.C08_combined", "Props.C08_quality_max", "Props.C08_quality_engine", "Props.C01_C08_cde"],
-        "streams": ["node", "solve", "cli-simple", "e2e-cde"],
+        "streams": ["node", "node-rooms", "solve", "solve-rooms", "cli-simple", "e2e-cde"],
     },
     "C09": {
         "module": "Cdecao.Props.C09",
